@@ -169,6 +169,24 @@ var SelfClosingTags = map[string]bool{
 	"wbr":     true,
 }
 
+// quoteDelims makes literal text safe to splice into the template source. Only the left delimiter matters to the
+// template lexer: a "{" that is followed by another "{", or that ends the text (so that it could pair up with
+// whatever is emitted next), is written as the action {{"{"}}. Everything else, including "}}", is plain text.
+func quoteDelims(s string) string {
+	if !strings.Contains(s, "{") {
+		return s
+	}
+	var b strings.Builder
+	for i := 0; i < len(s); i++ {
+		if s[i] == '{' && (i+1 == len(s) || s[i+1] == '{') {
+			b.WriteString(`{{"{"}}`)
+			continue
+		}
+		b.WriteByte(s[i])
+	}
+	return b.String()
+}
+
 func (p *renderState) buildNode(t *Token) (res Node) {
 	switch t.Type {
 	case "Tag":
@@ -205,10 +223,7 @@ func (p *renderState) buildNode(t *Token) (res Node) {
 
 	case "Text":
 		text := new(Text)
-		t.Val = strings.Replace(t.Val, "{{", `--{{--`, -1)
-		t.Val = strings.Replace(t.Val, "}}", `--}}--`, -1)
-		t.Val = strings.Replace(t.Val, "--{{--", `{{"{{"}}`, -1)
-		t.Val = strings.Replace(t.Val, "--}}--", `{{"}}"}}`, -1)
+		t.Val = quoteDelims(t.Val)
 		text.Val = t.Val
 		return text
 
